@@ -244,6 +244,7 @@ func propC10(r *kernel.Run) {
 			r.HarnessErr("encrypt rotation request: %v", err)
 		}
 		replay := false
+		sentNotAfter := sp.NotAfter // end of validity of the inner request actually sent (a replay sends an earlier one)
 		corrupt := "none"
 		switch tp.Draw(8) {
 		case 0:
@@ -254,6 +255,7 @@ func propC10(r *kernel.Run) {
 				enc, newID = ac.enc, ac.newID
 				replay = true
 				identClass, encClass, innerClass = "replayed", "replayed", "honest"
+				sentNotAfter = ac.notAfter
 				if d := time.Since(ac.notAfter); d > 0 {
 					// the replayed request's validity has run out meanwhile: inside this call's tolerance or not
 					innerClass, nearExpiryInside = "near-expiry", d <= naSkew // (the widened window is closed)
@@ -455,7 +457,7 @@ func propC10(r *kernel.Run) {
 				r.Count("ops.retire_old_record", 1)
 			}
 			chain = append(chain, ns)
-			accepted = append(accepted, acceptedRec{payload, rr, enc, newID, sp.NotAfter})
+			accepted = append(accepted, acceptedRec{payload, rr, enc, newID, sentNotAfter})
 		}
 		r.FP(class, corrupt, honored, len(scope), viaPrev, loader)
 		r.StateFP(class, honored, len(chain))
